@@ -109,6 +109,21 @@ def menu_extra(tool, fields):
     return kw
 
 
+def menu_cli_argv(min_max, finest, kw):
+    argv = ['menu', 'plt']
+    if min_max:
+        argv.append('--min_max')
+    if finest:
+        argv.append('--finest_lv')
+    if kw.get('has_var'):
+        argv += ['--has_var', ', '.join(kw['has_var'])]
+    if kw.get('description'):
+        argv.append('-d')
+    if kw.get('every'):
+        argv.append('-e')
+    return argv
+
+
 def check_menu(mods, ref, opts, ctx, canary=False, history=False, extra=''):
     mod = mods['amr_kitchen.menu.menu']
     fs = SymFS()
@@ -134,8 +149,19 @@ def check_menu(mods, ref, opts, ctx, canary=False, history=False, extra=''):
                     pass
             pos0 = len(buf.getvalue())
             try:
-                mod.Menu('plt', min_max=min_max, finest_lv=finest, **kw)
-            except Exception as e:
+                if 'cli' in extra:
+                    # the command-line entry point: the options travel through argparse and menu.cli.main's keyword wiring
+                    import sys
+                    old_argv = sys.argv
+                    sys.argv = menu_cli_argv(min_max, finest, kw)
+                    what = '`%s`' % ' '.join(sys.argv)
+                    try:
+                        mods['amr_kitchen.menu.cli'].main()
+                    finally:
+                        sys.argv = old_argv
+                else:
+                    mod.Menu('plt', min_max=min_max, finest_lv=finest, **kw)
+            except (Exception, SystemExit) as e:
                 obl.fail('%s raised %s: %s' % (what, type(e).__name__, str(e)[:100]))
                 return obl
             out = buf.getvalue()[pos0:]
@@ -335,6 +361,13 @@ def run_case(case):
               ('menu/finest+hv-mixed', lambda ctx: check_menu(mods, ref, (False, True), ctx, extra='hv-mixed')),
               ('menu/min_max+description', lambda ctx: check_menu(mods, ref, (True, False), ctx, extra='description')),
               ('menu/min_max+finest+every', lambda ctx: check_menu(mods, ref, (True, True), ctx, extra='every')),
+              # the same through the command line (argparse + the keyword wiring of menu.cli.main)
+              ('menu/default/cli', lambda ctx: check_menu(mods, ref, (False, False), ctx, extra='cli')),
+              ('menu/min_max/cli', lambda ctx: check_menu(mods, ref, (True, False), ctx, extra='cli')),
+              ('menu/finest/cli', lambda ctx: check_menu(mods, ref, (False, True), ctx, extra='cli')),
+              ('menu/min_max+finest+hv-mixed/cli', lambda ctx: check_menu(mods, ref, (True, True), ctx, extra='hv-mixed cli')),
+              ('menu/min_max+description/cli', lambda ctx: check_menu(mods, ref, (True, False), ctx, extra='description cli')),
+              ('menu/finest+every/cli', lambda ctx: check_menu(mods, ref, (False, True), ctx, extra='every cli')),
               ('menu/default/history', lambda ctx: check_menu(mods, ref, (False, False), ctx, history=True)),
               ('menu/min_max/history', lambda ctx: check_menu(mods, ref, (True, False), ctx, history=True)),
               ('marinate', lambda ctx: check_marinate(mods, ref, ctx)),
